@@ -51,12 +51,14 @@ CLAIMS = {
    note=TB + "completeness for every input additionally rests on C02, C03, C09, C11, C18 (each claimed separately).",
    tech="Lean 4 proof of rejection-loop exit conditions + round-trip execution over all (mode, set, sk provenance, pk provenance) combinations"),
  'C02': dict(cat='proof', ref='DESIGN 5 C02',
-   text="Partial proof + differential execution. Proved in Lean for all inputs and oracles: acceptance implies strict decoding succeeded, response norm strictly below gamma1-beta, recomputed commitment hash equal to c~; "
-        "any undecodable signature is rejected; contexts above 255 bytes are rejected by all three verifiers. Not proved: the recomputed w1' equals FIPS 204's for every input; decided on every run against a Python "
-        "transcription of Algorithms 3, 5, 8 on constructed boundary cases: forged signatures under a t1 = 0 key with the norm one below / at the bound, hint weight 0..omega, every class of hint-section malformation "
-        "(including set-preserving ones that only canonicity can reject), one-bit changes per section, long contexts.",
-   note=TB + "checks/ref/mldsa.py (Algorithms 3, 5, 8) is the oracle for the accept side.",
-   tech="Lean 4 proof of the rejecting conditions + constructed accept/reject boundary cases judged by a FIPS 204 reference"),
+   text="Lean theorem for every input (both build modes): for each parameter set, every public-key byte string, message, context, pre-hash and every byte string of signature length, verify_internal on the struct expand_public built returns exactly what "
+        "Algorithm 8 returns when written with exact arithmetic modulo q (verification_is_algorithm_8: sigDecode; SampleInBall; ExpandA; w' = NTT^-1(A_hat.NTT(z) - NTT(c).NTT(t1*2^d)) by exact butterflies; UseHint; w1Encode; "
+        "norm and hash tests), and verify / hash_verify add the context-length rejection and message formatting of Algorithms 3 / 5 (verify_is_algorithm_3, hash_verify_is_algorithm_5). The generated zeta table holds the FIPS 204 zetas "
+        "(kernel evaluation). The four rejecting conditions the property names are separate theorems (accept_implies, malformed_encoding_rejected, large_norm_rejected, long_context_rejected). The Lean specification is short and is itself "
+        "compared on every run (through the model) with a Python transcription of Algorithms 3, 5, 8 and with the crate on constructed boundary cases: forgeries under a t1 = 0 key with the norm one below / at the bound, hint weight "
+        "0..omega, every class of hint-section malformation, one-bit changes per section, long contexts.",
+   note=TB + "the specification verifySpec (Lemmas/VerifySpec) reuses the model's sigDecode / SampleInBall / ExpandA / w1Encode transcriptions (they are tied to the crate by correspondence; canonicity of the decoder is C08); checks/ref/mldsa.py (Algorithms 3, 5, 8) is the independent execution oracle.",
+   tech="Lean 4 proof that verify_internal equals Algorithm 8 with exact arithmetic mod q (NTT pipeline semantics) + rejecting-condition theorems + boundary cases judged by a FIPS 204 reference"),
  'C05': dict(cat='proof', ref='DESIGN 5 C05',
    text="Partial proof + exhaustive flip runs. Proved in Lean: UseHint(1, r) != UseHint(0, r) for every r and both gamma2 (a decoded hint-bit change always changes w1'), UseHint's range, and a change of message / context / "
         "mode changes the hashed input tr||M' unless a pre-hash collision is exhibited. Not provable without assumptions on SHAKE256 and A: flips inside c~ and z. Those are decided by running every single-bit "
